@@ -89,8 +89,7 @@ func (m *Machine) stub(fn *ssa.Function, args []Value) (Value, bool) {
 			return Iface{}, true
 		}
 		msg, _ := m.fmtMsg(args, 1)
-		inner := args[0].(Iface).val.(*ErrV)
-		return m.newErr(msg+": "+inner.msg, args[0]), true
+		return m.newErr(msg+": "+m.errText(args[0]), args[0]), true
 	case name == "github.com/samber/oops.Code" || strings.HasPrefix(name, "(github.com/samber/oops.OopsErrorBuilder).With") && !strings.HasSuffix(name, "Wrapf"):
 		return Opaque{"oopsbuilder"}, true
 	case name == "(github.com/samber/oops.OopsErrorBuilder).Errorf":
@@ -101,8 +100,7 @@ func (m *Machine) stub(fn *ssa.Function, args []Value) (Value, bool) {
 			return Iface{}, true
 		}
 		msg, _ := m.fmtMsg(args, 2)
-		inner := args[1].(Iface).val.(*ErrV)
-		return m.newErr(msg+": "+inner.msg, args[1]), true
+		return m.newErr(msg+": "+m.errText(args[1]), args[1]), true
 	case name == "errors.Is":
 		cur, target := args[0].(Iface), args[1].(Iface)
 		for cur.typ != nil {
@@ -187,6 +185,63 @@ func (m *Machine) stub(fn *ssa.Function, args []Value) (Value, bool) {
 		t.elems[1] = m.tt.Bin("bvadd", m.tt.Bin("bvadd", base, drift), m.tt.Const(64, 62135596800))
 		t.elems[2] = Ptr{}
 		return t, true
+	case strings.HasPrefix(name, "unique.Make["):
+		// unique.Make: a handle is a pointer to the canonical copy of the value; handles made from equal
+		// values are equal.  Modelled with a per-path table of made values compared structurally (concrete
+		// values only: net/netip makes handles for {}, {isV6:true} and zone strings).
+		return m.uniqueMake(args[0]), true
+	case strings.HasPrefix(name, "(unique.Handle[") && strings.HasSuffix(name, ").Value"):
+		h := args[0].(*Node)
+		p, _ := h.elems[0].(Ptr)
+		if p.isNil() {
+			m.end("gopanic", "unique.Handle.Value on zero handle")
+		}
+		return m.copyVal(p.node.elems[p.idx]), true
+	case name == "(net.IP).To4":
+		ip := args[0].(Slice)
+		if ip.len == 4 {
+			return ip, true
+		}
+		if ip.len == 16 {
+			c := m.tt.Bool(true)
+			for i := 0; i < 10; i++ {
+				c = m.tt.And(c, m.tt.Cmp("=", m.term(ip.node.elems[ip.off+i]), m.c8(0)))
+			}
+			c = m.tt.And(c, m.tt.Cmp("=", m.term(ip.node.elems[ip.off+10]), m.c8(0xff)))
+			c = m.tt.And(c, m.tt.Cmp("=", m.term(ip.node.elems[ip.off+11]), m.c8(0xff)))
+			if m.branch(c) {
+				return Slice{ip.node, ip.off + 12, 4, ip.cap - 12}, true
+			}
+		}
+		return Slice{}, true
+	case name == "net.ResolveIPAddr":
+		// resolving an IP literal needs no DNS and returns that address; anything else would be a name lookup,
+		// which C17 forbids: recorded, and answered with an arbitrary address
+		addr := m.strOf(args[1])
+		pf := m.prog.ImportedPackage("net")
+		var ipv Value = Slice{}
+		if pf != nil {
+			if f := pf.Func("ParseIP"); f != nil {
+				ipv = m.call(f, []Value{addr}, nil)
+			}
+		}
+		ip, _ := ipv.(Slice)
+		if ip.node == nil {
+			m.called["net.ResolveIPAddr:non-literal"] = true
+			n := m.newNode(16)
+			for i := range n.elems {
+				n.elems[i] = m.fresh(8, "dns")
+			}
+			ip = Slice{n, 0, 16, 16}
+		} else {
+			m.called["net.ResolveIPAddr:literal"] = true
+		}
+		st := m.newNode(2)
+		st.elems[0] = ip
+		st.elems[1] = Str{}
+		slot := m.newNode(1)
+		slot.elems[0] = st
+		return Tuple{Ptr{node: slot, idx: 0}, Iface{}}, true
 	case name == "crypto/sha256.Sum256":
 		m.called["sha256.Sum256"] = true
 		cells := m.idealHash(m.cellsOf(args[0]))
@@ -313,7 +368,7 @@ func initPkg(p string) bool {
 		return true
 	}
 	switch p {
-	case "encoding/base32", "encoding/base64", "github.com/go-i2p/crypto/types":
+	case "encoding/base32", "encoding/base64", "github.com/go-i2p/crypto/types", "net/netip":
 		return true
 	}
 	return false
@@ -434,7 +489,7 @@ func execPkg(p string) bool {
 		return true
 	}
 	switch p {
-	case "encoding/binary", "encoding/base32", "encoding/base64", "time", "errors", "unicode/utf8", "math/bits", "slices", "bytes", "strings", "sort", "strconv", "unicode", "encoding/hex", "internal/bytealg", "internal/stringslite", "cmp", "math",
+	case "encoding/binary", "encoding/base32", "encoding/base64", "time", "errors", "unicode/utf8", "math/bits", "slices", "bytes", "strings", "sort", "strconv", "unicode", "encoding/hex", "internal/bytealg", "internal/stringslite", "cmp", "math", "net", "net/netip", "internal/itoa", "internal/byteorder",
 		"github.com/go-i2p/crypto/types", "github.com/go-i2p/crypto/ed25519", "github.com/go-i2p/crypto/curve25519",
 		"github.com/go-i2p/crypto/ecdsa", "github.com/go-i2p/crypto/dsa", "github.com/go-i2p/crypto/elg", "github.com/go-i2p/crypto/red25519", "github.com/go-i2p/crypto/ed25519ph", "github.com/go-i2p/crypto/rsa":
 		return true
@@ -494,4 +549,42 @@ func (m *Machine) nowBase() *Term {
 		m.sol().Assert(m.tt.Cmp("bvult", m.nowT, m.tt.Const(64, 4000000000)))
 	}
 	return m.nowT
+}
+
+// uniqueMake implements unique.Make on concrete values.
+func (m *Machine) uniqueMake(v Value) Value {
+	for _, e := range m.uniq {
+		eq := m.valEq(e.val, v)
+		if eq.IsConst() {
+			if eq.val == 1 {
+				return e.handle
+			}
+			continue
+		}
+		if m.branch(eq) {
+			return e.handle
+		}
+	}
+	slot := m.newNode(1)
+	slot.elems[0] = m.copyVal(v)
+	h := m.newNode(1)
+	h.elems[0] = Ptr{node: slot, idx: 0}
+	m.uniq = append(m.uniq, uniqEntry{val: m.copyVal(v), handle: h})
+	return h
+}
+
+type uniqEntry struct {
+	val    Value
+	handle *Node
+}
+
+// errText is the message of an error value when it is one of the stub error objects; errors created by
+// executed library code (e.g. *strconv.NumError) render as an un-matchable placeholder.
+func (m *Machine) errText(v Value) string {
+	if i, ok := v.(Iface); ok {
+		if e, ok := i.val.(*ErrV); ok {
+			return e.msg
+		}
+	}
+	return "<error>"
 }
